@@ -54,6 +54,7 @@ func pairSpace(tier, opt string) []pairLeg {
 		add("U", U(un))
 	}
 	add("deep", Deep(thorough || o == "none" || o == "MERGE"))
+	add("mixed", Mixed())
 	switch {
 	case o == "none":
 		if thorough {
